@@ -1,5 +1,237 @@
-"""kani_runner - placeholder until Kani harnesses are registered (returns no obligations)."""
+"""kani_runner - run registered Kani harnesses against the REAL crate.
+
+Harness modules (kani/<file>.rs, `#[cfg(kani)] mod ... { use super::*; ... }`) are appended to source files in a
+scratch copy of /repo; the functions they call are the bytes of /repo.  Results become obligations
+`<unit>.kani.<harness>`; a FAILED harness with a concrete playback is decoded into a replay `#[test]` that is run
+with cargo test against the same scratch copy (failing input replayed on the real code).
+
+A harness marked `complete: true` is loop-free or fully unwound over full-domain inputs (counts as proved);
+otherwise it is a bounded stand-in (reported under `bounded`, never counted as proved).
+"""
+import json
+import os
+import re
+import shutil
+import subprocess
+import tempfile
+import time
+
+FEATURES_DEFAULT = 'serializer,RfsmExpressionModel'
 
 
-def run_for(pid, pc, tier, workdir, repo, seed):
-    return []
+def registry(verif):
+    with open(os.path.join(verif, 'kani', 'registry.json')) as f:
+        return json.load(f)['harnesses']
+
+
+def _scratch(repo):
+    d = tempfile.mkdtemp(prefix='verif-kani-')
+    subprocess.run(['rsync', '-a', '--exclude', 'target', '--exclude', '.git', repo.rstrip('/') + '/', d + '/'], check=True)
+    lock = os.path.join(repo, 'Cargo.lock')
+    if os.path.exists(lock):
+        shutil.copy(lock, os.path.join(d, 'Cargo.lock'))
+    return d
+
+
+def parse_playback(out, harness):
+    """-> list of byte-vectors (one per kani::any()) or None"""
+    mm = re.search(r'fn kani_concrete_playback_%s_\d+\(\) \{(.*?)kani::concrete_playback_run' % re.escape(harness), out, re.S)
+    if not mm:
+        return None
+    vals = []
+    for vm in re.finditer(r'vec!\[([0-9, ]*)\],?\s*\n', mm.group(1)):
+        s = vm.group(1).strip()
+        vals.append([int(x) for x in s.split(',') if x.strip()] if s else [])
+    return vals
+
+
+def decode(vals, spec):
+    """spec: [[name, type, count]] -> dict name -> python value (int or list of ints)"""
+    res = {}
+    i = 0
+    size = {'u8': 1, 'i8': 1, 'bool': 1, 'u16': 2, 'i16': 2, 'u32': 4, 'i32': 4, 'u64': 8, 'i64': 8, 'usize': 8, 'f64': 8}
+    for (name, ty, count) in spec:
+        items = []
+        for _ in range(count):
+            if i >= len(vals):
+                return None
+            b = vals[i]
+            i += 1
+            v = int.from_bytes(bytes(b), 'little', signed=False)
+            if ty.startswith('i'):
+                bits = 8 * size[ty]
+                if v >= 1 << (bits - 1):
+                    v -= 1 << bits
+            items.append(v)
+        res[name] = items if count > 1 else items[0]
+    return res
+
+
+def render(template, values):
+    def lit(v):
+        if isinstance(v, list):
+            return 'vec![' + ', '.join(str(x) for x in v) + ']'
+        return str(v)
+    out = template
+    for k, v in values.items():
+        out = out.replace('{' + k + '}', lit(v))
+    return out
+
+
+def run_harnesses(hs, repo, verif, jobs=4):
+    """run all harnesses hs (same cargo invocation per feature set). returns list of result dicts"""
+    results = []
+    by_feat = {}
+    for h in hs:
+        by_feat.setdefault(h.get('features', FEATURES_DEFAULT), []).append(h)
+    for feat, group in by_feat.items():
+        scratch = _scratch(repo)
+        try:
+            appended = set()
+            for h in group:
+                key = (h['file'], h['append_to'])
+                if key in appended:
+                    continue
+                appended.add(key)
+                with open(os.path.join(verif, 'kani', h['file'])) as f:
+                    text = f.read()
+                with open(os.path.join(scratch, h['append_to']), 'a') as f:
+                    f.write('\n' + text)
+            env = dict(os.environ, CARGO_NET_OFFLINE='true', CARGO_TARGET_DIR=os.path.join(verif, '.cache', 'kani-target'))
+            cmd = ['cargo', 'kani', '--lib', '--no-default-features', '--features', feat, '--output-format', 'terse']
+            if len(group) > 1:
+                cmd += ['-j', str(min(jobs, len(group)))]
+            else:
+                # concrete playback is incompatible with --jobs: only single-harness runs ask for it directly
+                cmd += ['-Z', 'concrete-playback', '--concrete-playback=print']
+            for z in sorted(set(z for h in group for z in h.get('zflags', []))):
+                cmd += ['-Z', z]
+            for h in group:
+                cmd += ['--harness', h['harness']]
+            timeout = max(h.get('timeout', 900) for h in group) + 120
+            t0 = time.time()
+            try:
+                p = subprocess.run(cmd, cwd=scratch, env=env, stdout=subprocess.PIPE, stderr=subprocess.STDOUT, text=True, timeout=timeout)
+                out = p.stdout
+                timed_out = False
+            except subprocess.TimeoutExpired as e:
+                out = (e.stdout or b'').decode('utf-8', 'replace') if isinstance(e.stdout, bytes) else (e.stdout or '')
+                timed_out = True
+            wall = time.time() - t0
+            for h in group:
+                r = dict(h=h, wall=wall, cmd=' '.join(cmd), status='undecided', detail='', cex=None, replay=None)
+                name = h['harness']
+                # per-harness summary lines:  "Verification failed for - path::name" / successes listed in "Complete - n successfully..."
+                sect = None
+                for sm in re.finditer(r'Checking harness ([\w:]+)\.\.\.(.*?)(?=Checking harness |Manual Harness Summary|$)', out, re.S):
+                    if sm.group(1).split('::')[-1] == name:
+                        sect = sm.group(2)
+                if sect is None and not timed_out:
+                    r['detail'] = 'harness output not found (compile error?)\n' + out[-2500:]
+                elif sect is None:
+                    r['detail'] = 'timeout'
+                else:
+                    vm = re.search(r'VERIFICATION:- (\w+)', sect)
+                    tm = re.search(r'Verification Time: ([0-9.]+)s', sect)
+                    r['verify_s'] = float(tm.group(1)) if tm else None
+                    checks = re.search(r'\*\* (\d+) of (\d+) failed', sect)
+                    r['checks'] = (int(checks.group(1)), int(checks.group(2))) if checks else None
+                    if vm and vm.group(1) == 'SUCCESSFUL':
+                        r['status'] = 'ok'
+                    elif vm and vm.group(1) == 'FAILED':
+                        fails = re.findall(r'Failed Checks: ([^\n]*)\n\s*File: "([^"]*)", line (\d+)', sect)
+                        unw = [f for f in fails if 'unwinding assertion' in f[0]]
+                        real = [f for f in fails if 'unwinding assertion' not in f[0]]
+                        if real:
+                            r['status'] = 'failed'
+                            r['detail'] = '; '.join('%s (%s:%s)' % f for f in real[:5])
+                            pb_out = out
+                            if len(group) > 1 and h.get('decode'):
+                                # second pass for this harness alone, with concrete playback
+                                cmd2 = ['cargo', 'kani', '--lib', '--no-default-features', '--features', feat, '--output-format', 'terse',
+                                        '-Z', 'concrete-playback', '--concrete-playback=print', '--harness', name]
+                                for z in h.get('zflags', []):
+                                    cmd2 += ['-Z', z]
+                                try:
+                                    pb_out = subprocess.run(cmd2, cwd=scratch, env=env, stdout=subprocess.PIPE, stderr=subprocess.STDOUT,
+                                                            text=True, timeout=h.get('timeout', 900) + 120).stdout
+                                except subprocess.TimeoutExpired:
+                                    pb_out = ''
+                            vals = parse_playback(pb_out, name)
+                            if vals is not None and h.get('decode'):
+                                dv = decode(vals, h['decode'])
+                                if dv is not None:
+                                    r['cex'] = dv
+                        elif unw:
+                            r['status'] = 'undecided'
+                            r['detail'] = 'unwinding bound too small: ' + unw[0][0]
+                        else:
+                            r['status'] = 'undecided'
+                            r['detail'] = 'FAILED without failed-check list\n' + sect[-1500:]
+                    else:
+                        r['detail'] = 'no verdict (out of memory / crash?)\n' + sect[-1500:]
+                # replay a counterexample on the real code
+                if r['cex'] is not None and h.get('replay_template'):
+                    with open(os.path.join(verif, 'kani', h['replay_template'])) as f:
+                        tmpl = f.read()
+                    code = render(tmpl, r['cex'])
+                    with open(os.path.join(scratch, h['append_to']), 'a') as f:
+                        f.write('\n' + code)
+                    env2 = dict(os.environ, CARGO_NET_OFFLINE='true', CARGO_TARGET_DIR=os.path.join(verif, '.cache', 'target'), RUST_BACKTRACE='0')
+                    rc = subprocess.run(['cargo', 'test', '--offline', '--lib', '--no-default-features', '--features',
+                                         'serializer,xml,RfsmExpressionModel', h.get('replay_filter', 'verif_replay_cex'), '--', '--test-threads', '1'],
+                                        cwd=scratch, env=env2, stdout=subprocess.PIPE, stderr=subprocess.STDOUT, text=True, timeout=900)
+                    pm = re.search(r"panicked at [^\n]*:\n([^\n]*)", rc.stdout)
+                    r['replay'] = dict(test_code=code, failed=('FAILED' in rc.stdout and 'test result: FAILED' in rc.stdout),
+                                       message=pm.group(1)[:500] if pm else None,
+                                       ran='test result:' in rc.stdout, tail=rc.stdout[-800:])
+                results.append(r)
+        finally:
+            shutil.rmtree(scratch, ignore_errors=True)
+    return results
+
+
+def run_for(pid, pc, tier, workdir, repo, seed, force=None):
+    """-> list of extras dicts for the driver"""
+    verif = os.path.dirname(os.path.dirname(os.path.abspath(__file__)))
+    if not os.path.exists(os.path.join(verif, 'kani', 'registry.json')):
+        return []
+    hs = []
+    for h in registry(verif):
+        if pid not in h['properties']:
+            continue
+        if force and h['harness'] in force:
+            hs.append(h)
+            continue
+        tiers = h.get('tiers', ['thorough'])
+        if tier in tiers:
+            hs.append(h)
+    if not hs:
+        return []
+    res = run_harnesses(hs, repo, verif)
+    extras = []
+    for r in res:
+        h = r['h']
+        ob = h['obligation']
+        e = dict(obligations={}, failed=[], undecided=[], bounded=[], trusted=[],
+                 backend=dict(unit='kani:' + h['harness'], backend='kani 0.68 / cbmc 6.11', wall_s=round(r['wall'], 1),
+                              verify_s=r.get('verify_s'), checks=r.get('checks'), cmd=r['cmd'].replace(os.path.join(verif, '.cache'), '<cache>'),
+                              complete=bool(h.get('complete')), bound=h.get('bound')))
+        kind = 'kani' if h.get('complete') else 'kani-bounded'
+        if h.get('complete'):
+            e['obligations'][ob] = dict(kind=kind, fn=h.get('function', h['harness']), text=h.get('claim', ''), serves=h['properties'],
+                                        unit='kani', backend='kani/cbmc (complete: %s)' % h.get('bound', 'loop-free, full domain'))
+        else:
+            e['bounded'].append(dict(harness=h['harness'], bound=h.get('bound'), status=r['status'], claim=h.get('claim', '')))
+        if r['status'] == 'failed':
+            fl = dict(ob=ob, fn=h.get('function', h['harness']), kind=kind, message='Kani: ' + r['detail'], text=h.get('claim', ''),
+                      serves=h['properties'], rendered=r['detail'], unit='kani')
+            if r['replay'] and r['replay'].get('failed'):
+                fl['cex'] = dict(kani_values=r['cex'], replay_test=r['replay']['test_code'], replay_message=r['replay']['message'])
+            elif r['cex'] is not None:
+                fl['cex_unconfirmed'] = r['cex']
+            e['failed'].append(fl)
+        elif r['status'] == 'undecided':
+            e['undecided'].append('kani %s: %s' % (h['harness'], r['detail'][:600]))
+        extras.append(e)
+    return extras
